@@ -3,6 +3,7 @@ package core
 import (
 	"bytes"
 	"encoding/json"
+	"fmt"
 	"strings"
 	"testing"
 
@@ -92,7 +93,7 @@ func TestC10(t *testing.T) {
 	if cfg.Thorough() {
 		sc.fullLen, sc.reducedLen, sc.focusLen = 4, 5, 7
 	}
-	inputStreams(t, st, sc, func(stream string, c InCase) bool {
+	check := func(stream string, c InCase) bool {
 		st.Eval()
 		f, accepted, cls := checkC10(c)
 		if f != nil {
@@ -112,5 +113,24 @@ func TestC10(t *testing.T) {
 			st.Sample(cls+":"+stream, c.Quoted+" df="+c.DF)
 		}
 		return true
-	})
+	}
+	inputStreams(t, st, sc, check)
+	if cfg.Shard == 0 && cfg.Thorough() {
+		// sizes around 2^16 (PostgreSQL's limit of 65535 bind parameters is the kind of
+		// boundary a renderer may start to care about)
+		st.Stream("huge-inputs", false, "value lists and AND chains with 65535, 65536 and 70000 values")
+		for _, n := range []int{65535, 65536, 70000} {
+			var b strings.Builder
+			b.WriteString("id:(")
+			for i := 0; i < n; i++ {
+				if i > 0 {
+					b.WriteString(" OR ")
+				}
+				fmt.Fprintf(&b, "v%d", i)
+			}
+			b.WriteString(")")
+			check("huge-inputs", mkIn(b.String(), "", 0))
+			check("huge-inputs", mkIn(strings.TrimSuffix(strings.Repeat("a:1 ", n), " "), "dflt", 0))
+		}
+	}
 }
